@@ -1023,6 +1023,20 @@ class Module(ABC):
         # Override `comp_index` to just be a consecutive list.
         all_nodes["global_comp_index"] = np.arange(len(all_nodes))
 
+        # Update the groups. They are stored as row indices of `.nodes`, which have
+        # just been renumbered: rows behind the modified branch are shifted and, if
+        # the modified branch was part of a group, its new compartments are.
+        old_inds = np.arange(start_idx, start_idx + number_deleted)
+        for group_name, group_inds in self.base.groups.items():
+            group_inds = np.asarray(group_inds)
+            in_branch = np.isin(group_inds, old_inds)
+            before = group_inds[group_inds < start_idx]
+            behind = group_inds[group_inds >= start_idx + number_deleted]
+            within = np.arange(start_idx, start_idx + ncomp)[: ncomp * int(in_branch.any())]
+            self.base.groups[group_name] = np.concatenate(
+                [before, within, behind + ncomp - number_deleted]
+            ).astype(int)
+
         # Update compartment structure arguments.
         ncomp_per_branch[branch_indices] = ncomp
         ncomp = int(np.max(ncomp_per_branch))
